@@ -6,13 +6,14 @@ cd $WT || exit 2
 build() { g++ -std=c++11 -O1 -fPIC -shared -Isrc/strengths/engines/strengths_engine/src src/strengths/engines/strengths_engine/src/engine.cpp -o src/strengths/engines/strengths_engine/engine.cpython-312-x86_64-linux-gnu.so 2>&1 | tail -3; }
 DEMO=$(ls _seed/demo.* | head -1)
 rundemo() { if [[ $DEMO == *.py ]]; then PYTHONPATH=$WT/src timeout 300 /venv/bin/python $DEMO >/tmp/demo_out.txt 2>&1; else PYTHONPATH=$WT/src timeout 300 bash $DEMO >/tmp/demo_out.txt 2>&1; fi; echo $?; }
-git diff --quiet -- src && { echo "no source change applied in $WT"; exit 2; }
+git checkout -q -- src
+git apply --whitespace=nowarn _seed/patch.diff || { echo "patch does not apply in $WT"; exit 2; }
 build
 T1=$(PYTHONPATH=$WT/src /venv/bin/python -m pytest -q -p no:cacheprovider --timeout=900 2>&1 | tail -1)
 D1=$(rundemo)
-git stash -q -- src
+git apply -R --whitespace=nowarn _seed/patch.diff
 build
 D0=$(rundemo)
-git stash pop -q
+git apply --whitespace=nowarn _seed/patch.diff
 build
 echo "with-change: tests=[$T1] demo_exit=$D1 ; without-change: demo_exit=$D0"
